@@ -28,6 +28,13 @@ func RunAll(c *vx.Ctx, part string, progs []Program, bound int) {
 // records per program the largest bound that was completed, so that a
 // deadline during the deepest pass still leaves a precise coverage statement.
 func RunBounds(c *vx.Ctx, part string, progs []Program, bounds []int) {
+	if Free {
+		// supplementary free-running pass (run under -race by vcheck)
+		st := RunFree(progs, c.Expired)
+		c.AddEvals(part+"/free-running", st.Executions, st.Joined)
+		c.Note("free_run", st)
+		return
+	}
 	if c.Replaying() {
 		runAll(c, part, progs, bounds[0], nil)
 		return
